@@ -66,7 +66,9 @@ let rec handler r =
       let dims = list r in let lg = integer r <> 0 in
       res_out (fun (c, t) -> put_i (int_of_z c); put_table t)
         (roundtrip_function_range fops fmt6 h f a b (nat_of_int steps) dims lg)
-  | "session" ->
+  | ("session" | "lsession") as sop ->
+      (* lsession <reps> ...: the block of calls made <reps> times over, in one process *)
+      let reps = if sop = "lsession" then integer r else 1 in
       let np = integer r in let _paths = List.init np (fun _ -> word r) in
       let nops = integer r in
       let calls = List.init nops (fun _ ->
@@ -81,13 +83,16 @@ let rec handler r =
             OExportFunctionRange (p, h, f, a, b, nat_of_int steps, d, lg)
         | "il" -> let d = num r in let ign = integer r in OImportList (p, d, nat_of_int ign)
         | "it" -> let d = list r in let ign = integer r in OImportTable (p, d, nat_of_int ign)
+        | "fe" -> OFileExists p
         | _ -> OCountLines p) in
+      let calls = List.concat (List.init reps (fun _ -> calls)) in
       (match io_run fops fmt6 [] calls with
        | Ok (_, outs) ->
            let n = ref 0 in
            List.iter (fun a -> match a with
              | RUnit -> () | RList l -> incr n; put_fl l | RTable t -> incr n; put_table t
-             | RCount c -> incr n; put_i (int_of_z c)) outs;
+             | RCount c -> incr n; put_i (int_of_z c)
+             | RBool b -> incr n; put_i (if b then 1 else 0)) outs;
            if !n = 0 then put_w "done"
        | Exit -> put_w "EXIT" | OOB -> put_w "OOB" | Fuel -> put_w "FUEL")
   | "import_missing" -> let _path = word r in let which = integer r in
